@@ -32,6 +32,18 @@ fn rel_result(cp: u32, r: Value) -> Value {
     }
 }
 
+/// results with an error payload: the offending code point is encoded relative as well
+fn rel_any(cp: u32, r: Value) -> Value {
+    if r.get("ok").is_some() || r.get("panic").is_some() {
+        return rel_result(cp, r);
+    }
+    let mut r = r;
+    if r.get("cp").and_then(|x| x.as_u64()) == Some(cp as u64) {
+        r["cp"] = json!(-1);
+    }
+    r
+}
+
 fn s3(parts: &[u32]) -> String {
     parts.iter().map(|c| char::from_u32(*c).unwrap()).collect()
 }
@@ -64,6 +76,7 @@ pub fn sig_of(o: &Oracle, cp: u32) -> Value {
     let lower = Oracle::std_lower(c);
     json!({
         "exc": o.exc_of(cp),
+        "idp": o.idp_of(cp),
         "cat": o.cats_of(cp),
         "vir": o.virama[cp as usize],
         "jt": o.jt_of(cp),
@@ -110,6 +123,13 @@ pub fn obs_of(o: &Oracle, cp: u32) -> Value {
                 one("UCP", "width_mapping_rule", &[cp, a, a, a, a, a, a, a]), one("UCM", "width_mapping_rule", &[a, a, a, a, a, a, a, a, cp, a, a, a, a, a, a, a]),
                 one("OPQ", "additional_mapping_rule", &[cp, a, a, a, a, a, a, a]), one("OPQ", "additional_mapping_rule", &[a, a, a, a, a, a, a, a, cp, a, a, a, a, a, a, a]),
                 one("NICK", "additional_mapping_rule", &[a, cp, a, a, a, a, a, a]), one("NICK", "additional_mapping_rule", &[a, a, a, a, a, a, a, a, cp, a, a, a, a, a, a, a])],
+        // the whole prepare pipeline and the string classes per code point: alone, between letters, inside 8-byte blocks
+        "pp": [rel_any(cp, call_profile("UCM", "prepare", &[s3(&[cp])])),
+               rel_any(cp, call_profile("UCP", "prepare", &[s3(&[cp, a, a, a, a, a, a, a])])),
+               rel_any(cp, call_profile("OPQ", "prepare", &[s3(&[a, a, a, a, a, a, a, a, cp, a, a, a, a, a, a, a])])),
+               rel_any(cp, call_profile("NICK", "prepare", &[s3(&[a, cp])]))],
+        "al": [rel_any(cp, call_allows("Id", &s3(&[cp]))), rel_any(cp, call_allows("Ff", &s3(&[a, cp, a]))),
+               rel_any(cp, call_allows("Id", &s3(&[a, cp, a]))), rel_any(cp, call_allows("Ff", &s3(&[cp])))],
         "osp": one("OPQ", "additional_mapping_rule", &[a, cp, a]),
         "nsp": one("NICK", "additional_mapping_rule", &[a, cp, a]),
         // the same character AFTER the first character that triggers the copying path
